@@ -44,6 +44,7 @@ theorem rdVer_match_step {c : Cfg} {s : State} {t : Tid} {sl : Slot}
   rw [hpc]; dsimp only
   unfold stepRdVer acquire
   simp [hsl, hv, ho]
+  rw [hpc]
 
 /-- **compensation_terminates.**  Once the rest of its range is published, the compensating loop exits:
 `num - i` steps, all of them matching version reads, lead to the fence in front of the callback; the ticket
@@ -83,7 +84,7 @@ theorem wait_exits_when_published {c : Cfg} (hcap : 0 < c.cap) :
       obtain ⟨s', hrun, h1, h2, h3, h4, h5, h6, h7⟩ :=
         wait_exits_when_published hcap k S1 t (by rw [hth]) (by rw [hth]; exact hnum) (by simp [S1, State.setTh, State.setSlot, hlen])
           (by rw [hth]; simpa using hlast) (by rw [hth]; simp only; omega) hpub1
-      refine ⟨s', hrun, h1, by rw [h2, hth], by rw [h3], by rw [h4], by rw [h5], by rw [h6], ?_⟩
+      refine ⟨s', hrun, h1, by rw [h2, hth], by rw [h3]; rfl, by rw [h4]; rfl, by rw [h5]; rfl, by rw [h6]; rfl, ?_⟩
       rw [h7]
       exact cacheToks_set_owner s _ sl _ hsl
     · -- that was the last slot
@@ -94,5 +95,15 @@ theorem wait_exits_when_published {c : Cfg} (hcap : 0 < c.cap) :
       subst hk0
       refine ⟨_, rfl, by simp [State.setTh], by simp [State.setTh], rfl, rfl, rfl, rfl, ?_⟩
       exact cacheToks_set_owner s _ sl _ hsl
+
+
+theorem runThread_runT {c : Cfg} {t : Tid} : ∀ (n : Nat) (s s' : State), runThread c t n s = some s' → RunT c t s s'
+  | 0, s, s', h => by simp only [runThread, Option.some.injEq] at h; subst h; exact .refl s
+  | n + 1, s, s', h => by
+    simp only [runThread] at h
+    split at h
+    · simp at h
+    · rename_i s1 l hs
+      exact .step 0 false l hs (runThread_runT n s1 s' h)
 
 end Babylon.Pages
